@@ -964,6 +964,7 @@ class Interp:
         self._cf_links = []
         self._okor_links = []
         self.stop = set(stop)
+        self.start_bb = start
         st = {"env": {}, "pc": [], "pc_aux": [], "events": [], "visits": {}}
         if init:
             init(self, st)
@@ -1008,7 +1009,7 @@ class Interp:
     def _walk(self, bb, st):
         while True:
             st["visits"][bb] = st["visits"].get(bb, 0) + 1
-            if bb in getattr(self, "stop", ()) and st["visits"][bb] > 1:
+            if bb in getattr(self, "stop", ()) and (st["visits"][bb] > 1 or bb != getattr(self, "start_bb", None)):
                 self._finish(st, "backedge")
                 return
             if st["visits"][bb] > self.loop_bound + 1:
